@@ -38,7 +38,7 @@ def _drop_ext(runs):
 
 
 def run(sc, tier, replay):
-    off = ["nodupkey", "nodirid", "nofragdirs"]
+    off = ["nodirid", "nofragdirs"]
     strata = {"core-invalid": (off + ["oddids", "richargs"], 0.5, "invalid"),
               "core-faults": (off, 0.5, "faults")}
     return fedcheck.run_fed_check(
